@@ -561,23 +561,40 @@ func (i *Iterator[T]) ProcessParallel(
 
 		wg := &WaitGroup{}
 
+		// abort: the failing worker stops at once (io.EOF ends its
+		// ReadAll loop, which reports it as nil, so the observer
+		// below cannot tell an aborting worker from the end of
+		// the input) and every other worker stops after at most
+		// one further item: the number of items started after a
+		// failure is bounded by the number of workers, and an
+		// item that a worker can take right away is not lost to
+		// a race with the cancellation of the group's context.
+		aborted := &atomic.Bool{}
+
 		operation := fn.WithRecover().WithErrorFilter(func(err error) error {
 			if opts.CanContinueOnError(err) {
 				return nil
 			}
-			// abort: stop this worker (io.EOF ends its ReadAll
-			// loop) and cancel the group so that the other
-			// workers stop picking up new items. (ReadAll
-			// reports io.EOF as nil, so the observer below
-			// cannot tell an aborting worker from the end of
-			// the input.)
-			cancel()
+			aborted.Store(true)
 			return io.EOF
 		})
 
 		splits := i.Split(opts.NumWorkers)
 		for idx := range splits {
-			operation.ReadAll(splits[idx].Producer()).
+			input := splits[idx].Producer()
+			final := false
+
+			operation.ReadAll(func(ctx context.Context) (out T, err error) {
+				if final {
+					return out, io.EOF
+				}
+				out, err = input(ctx)
+				// (checked after the read: an item that
+				// arrives after the abort is the last
+				// one this worker takes.)
+				final = aborted.Load()
+				return out, err
+			}).
 				Operation(func(err error) { ft.WhenCall(ers.Is(err, io.EOF, ers.ErrCurrentOpAbort), cancel) }).
 				Add(ctx, wg)
 		}
